@@ -355,7 +355,10 @@ def straight(draw, n_max=8):
         if k <= 6:
             ins = draw(st.sampled_from(TWO))
             sfx = draw(st.sampled_from([".w", ".b", ""]))
-            lines.append("  %s%s %s, %s" % (ins, sfx, draw(st.sampled_from(SRC_OPS)), draw(st.sampled_from(DST_OPS))))
+            src = draw(st.sampled_from(SRC_OPS))
+            if sfx == ".b" and src.startswith("#0x") and int(src[1:], 16) > 0xff:
+                src = "#0x%02x" % (int(src[1:], 16) >> 8)       # byte operations take byte immediates (constructed, not filtered)
+            lines.append("  %s%s %s, %s" % (ins, sfx, src, draw(st.sampled_from(DST_OPS))))
         elif k == 7:
             ins = draw(st.sampled_from(ONE))
             sfx = draw(st.sampled_from([".w", ".b"])) if ins in ("rrc", "rra") else ""
@@ -380,7 +383,7 @@ def program(draw):
     nblocks = draw(st.integers(1, 4))
     subs = []
     for b in range(nblocks):
-        kind = draw(st.sampled_from(["plain", "loop", "call", "cond"]))
+        kind = draw(st.sampled_from(["plain", "loop", "call", "cond", "reti", "callreti"]))
         body = draw(straight())
         if kind == "plain":
             lines += body
@@ -396,6 +399,22 @@ def program(draw):
             feats.add("call")
             lines.append("  call #sub%d" % b)
             subs.append(("sub%d" % b, draw(straight(4))))
+        elif kind == "reti":
+            # return-from-interrupt used as a jump: RETI pops SR, then PC.  It is not the routine's final ret
+            feats.add("reti")
+            lines.append("  push #reti%d" % b)
+            lines.append("  push %s" % draw(st.sampled_from(["r2", "#0x0000", "#0x0001", "#0x0104"])))
+            lines.append("  reti")
+            lines += ["  mov.w #0xdead, r11"]            # skipped
+            lines.append("reti%d:" % b)
+            lines += body
+        elif kind == "callreti":
+            # the same inside a called subroutine
+            feats.add("reti")
+            feats.add("call")
+            lines.append("  call #sub%d" % b)
+            subs.append(("sub%d" % b, ["  push #rsub%d" % b, "  push r2", "  reti", "  mov.w #0xdead, r11", "rsub%d:" % b] +
+                         draw(straight(3))))
         else:
             feats.add("cond")
             j = draw(st.sampled_from(["jz", "jnz", "jc", "jnc", "jn", "jge", "jl", "jmp"]))
@@ -541,7 +560,7 @@ def run(tier, seed, shard, nshards):
     tmp = tempfile.mkdtemp(prefix="c14_", dir="/verif/build/tmp" if os.path.isdir("/verif/build/tmp") else None)
     try:
         run_steps(w, s, tier, seed, shard, nshards, known, survey)
-        n = 6 if tier == "quick" else 150
+        n = 25 if tier == "quick" else 250
         hyp_run(lambda p: run_program(s, tmp, p, known, survey), program(), n, shard_seed(seed, shard, "c14run"), s)
     finally:
         w.close()
